@@ -1212,42 +1212,28 @@ func (t *ZeroAllocTokenizer) TokenizeOptimized() ([]Token, error) {
 		tagContent := t.source[tagContentStart:tagEndPos]
 		t.line += countNewlines(tagContent)
 
-		// Determine the end token type and length
+		// Determine the end token type. tagEndPos points at the two closing
+		// characters; a dash directly in front of them that belongs to the tag
+		// content (not to the opening delimiter) requests whitespace trimming,
+		// whether or not the opening delimiter carried a dash as well.
 		var endTokenType int
-		var endLength int
+		endLength := 2
 
 		switch tagLoc.Type {
-		case TAG_VAR:
+		case TAG_VAR, TAG_VAR_TRIM:
 			endTokenType = TOKEN_VAR_END
-			endLength = 2 // }}
-		case TAG_VAR_TRIM:
-			// Check if it ends with -}}
-			if tagEndPos > 0 && t.source[tagEndPos-1] == '-' {
+			if tagEndPos > tagContentStart && t.source[tagEndPos-1] == '-' {
 				endTokenType = TOKEN_VAR_END_TRIM
-				endLength = 3 // -}}
-				// Adjust tag content to remove the trailing dash
 				tagContent = tagContent[:len(tagContent)-1]
-			} else {
-				endTokenType = TOKEN_VAR_END
-				endLength = 2 // }}
 			}
-		case TAG_BLOCK:
+		case TAG_BLOCK, TAG_BLOCK_TRIM:
 			endTokenType = TOKEN_BLOCK_END
-			endLength = 2 // %}
-		case TAG_BLOCK_TRIM:
-			// Check if it ends with -%}
-			if tagEndPos > 0 && t.source[tagEndPos-1] == '-' {
+			if tagEndPos > tagContentStart && t.source[tagEndPos-1] == '-' {
 				endTokenType = TOKEN_BLOCK_END_TRIM
-				endLength = 3 // -%}
-				// Adjust tag content to remove the trailing dash
 				tagContent = tagContent[:len(tagContent)-1]
-			} else {
-				endTokenType = TOKEN_BLOCK_END
-				endLength = 2 // %}
 			}
 		case TAG_COMMENT:
 			endTokenType = TOKEN_COMMENT_END
-			endLength = 2 // #}
 		}
 
 		// Process tag content based on tag type
